@@ -49,6 +49,40 @@ def abstract_nl(e, cache):
     return r
 
 
+def nl_lemmas(cache):
+    """valid facts about real multiplication / division for every abstracted application"""
+    out, seen = [], set()
+    zero, one = z3.RealVal(0), z3.RealVal(1)
+    def visit(e):
+        k = e.get_id()
+        if k in seen: return
+        seen.add(k)
+        if not z3.is_app(e): return
+        for c in e.children(): visit(c)
+        d = e.decl()
+        if d.eq(_fmul):
+            a, b = e.children()
+            out.append(z3.Implies(z3.Or(a == zero, b == zero), e == zero))
+            out.append(z3.Implies(z3.Or(z3.And(a > zero, b > zero), z3.And(a < zero, b < zero)), e > zero))
+            out.append(z3.Implies(z3.Or(z3.And(a > zero, b < zero), z3.And(a < zero, b > zero)), e < zero))
+            out.append(z3.Implies(a == one, e == b)); out.append(z3.Implies(b == one, e == a))
+            if b.decl().eq(_fdiv) and z3.is_rational_value(b.children()[0]) and b.children()[0].numerator_as_long() == b.children()[0].denominator_as_long():
+                dd = b.children()[1]
+                out.append(z3.Implies(z3.And(a == dd, dd != zero), e == one))
+            if a.decl().eq(_fdiv) and z3.is_rational_value(a.children()[0]) and a.children()[0].numerator_as_long() == a.children()[0].denominator_as_long():
+                dd = a.children()[1]
+                out.append(z3.Implies(z3.And(b == dd, dd != zero), e == one))
+        elif d.eq(_fdiv):
+            a, b = e.children()
+            out.append(z3.Implies(z3.And(a == zero, b != zero), e == zero))
+            out.append(z3.Implies(z3.And(a == b, b != zero), e == one))
+            out.append(z3.Implies(z3.Or(z3.And(a > zero, b > zero), z3.And(a < zero, b < zero)), e > zero))
+            out.append(z3.Implies(z3.Or(z3.And(a > zero, b < zero), z3.And(a < zero, b > zero)), e < zero))
+            out.append(z3.Implies(b == one, e == a))
+    for v in list(cache.values()): visit(v)
+    return out
+
+
 class Stats:
     def __init__(s):
         s.queries = 0; s.unsat = 0; s.sat = 0; s.unknown = 0
@@ -77,12 +111,13 @@ def _solve(cons, timeout_ms, seed):
     return r, (sol.model() if r == z3.sat else None), dt, sol
 
 
-def solve(st, assumptions, bad, timeout_s=60, seed=0, want_model=True, label='', stages=(1, 2), dump=None):
+def solve(st, assumptions, bad, timeout_s=60, seed=0, want_model=True, label='', stages=(0, 1, 2), dump=None):
     """is assumptions /\\ bad satisfiable?  -> ('unsat'|'sat'|'unknown', model or None)
     stage 1: nonlinear operations abstracted to UFs (unsat is conclusive, sat is not);
     stage 2: exact nonlinear real arithmetic."""
     st.queries += 1
     cons = [to_z3(a) for a in assumptions] + [to_z3(bad)]
+    orig = list(cons)
     if 0 in stages or 1 in stages:
         try:
             t0 = time.time()
@@ -94,21 +129,30 @@ def solve(st, assumptions, bad, timeout_s=60, seed=0, want_model=True, label='',
                 return 'unsat', None
             cons[-1] = cb
         except (OverflowError, ValueError):
-            pass
+            cons = None
+    if cons is None: cons = orig; orig = None if False else orig
     if 1 in stages:
-        cache = {}
-        acons = [abstract_nl(c, cache) for c in cons]
-        r, m, dt, sol = _solve(acons, min(timeout_s, 60) * 1000, seed)
-        st.z3_s += dt; st.stage1 += 1
-        if r == z3.unsat:
-            st.unsat += 1
-            if len(st.samples) < 3 and label: st.samples.append({'query': label, 'stage': 'UF-abstracted', 'result': 'unsat', 's': round(dt, 3)})
-            if dump: _dump(sol, dump)
-            return 'unsat', None
+        qcons = None
+        try:
+            qcons = orig[:-1] + [Canon(distribute=False).boolean(orig[-1])]
+        except (OverflowError, ValueError):
+            pass
+        for variant in ((qcons, 'UF-abstracted (quotient normal form)'), (cons, 'UF-abstracted (polynomial normal form)'), (orig, 'UF-abstracted')):
+            if variant[0] is None: continue
+            cache = {}
+            acons = [abstract_nl(c, cache) for c in variant[0]]
+            acons += nl_lemmas(cache)
+            r, m, dt, sol = _solve(acons, min(timeout_s, 30) * 1000, seed)
+            st.z3_s += dt; st.stage1 += 1
+            if r == z3.unsat:
+                st.unsat += 1
+                if len(st.samples) < 3 and label: st.samples.append({'query': label, 'stage': variant[1], 'result': 'unsat', 's': round(dt, 3)})
+                if dump: _dump(sol, dump)
+                return 'unsat', None
     if 2 not in stages:
         st.unknown += 1
         return 'unknown', None
-    r, m, dt, sol = _solve(cons, timeout_s * 1000, seed)
+    r, m, dt, sol = _solve(orig if orig is not None else cons, timeout_s * 1000, seed)
     st.z3_s += dt; st.stage2 += 1
     if dump: _dump(sol, dump)
     if r == z3.unsat:
@@ -131,16 +175,27 @@ def _dump(sol, path):
 def witness_sat(st, assumptions, wbad, real_vars, int_vars=(), seed=0, tries=12, timeout_s=10):
     """vacuity witness: is assumptions /\\ wbad satisfiable?  Inputs are fixed to random small dyadic values
     (the solver completes the rest: sqrt variables etc.); falls back to an unconstrained search."""
-    import random
+    import random, re
     rnd = random.Random(seed * 31 + 7)
     base = [to_z3(a) for a in assumptions] + [to_z3(wbad)]
+    conj = z3.And(*base)
     for k in range(tries):
-        cons = list(base)
+        sub = []
+        bars = {}
         for x in real_vars:
-            cons.append(x == z3.Q(rnd.randint(1, 64) if k % 2 == 0 else rnd.randint(-64, 64), rnd.choice([1, 2, 4])))
+            m = re.fullmatch(r'(.*)_([ohlcv])', str(x))
+            if m: bars.setdefault(m.group(1), {})[m.group(2)] = x
+            else: sub.append((x, z3.Q(rnd.randint(1, 64) if k % 2 == 0 else rnd.randint(-64, 64), rnd.choice([1, 2, 4]))))
+        for b in bars.values():                      # a valid, positive bar
+            lo = rnd.randint(1, 40); hi = lo + rnd.randint(0, 24)
+            vals = {'l': lo, 'h': hi, 'o': rnd.randint(lo, hi), 'c': rnd.randint(lo, hi), 'v': rnd.randint(0, 50)}
+            for f, x in b.items(): sub.append((x, z3.Q(vals[f], rnd.choice([1, 2, 4]) if False else 1)))
         for p in int_vars:
-            cons.append(p == rnd.randint(1, 5))
-        r, m, dt, _ = _solve(cons, timeout_s * 1000, seed)
+            sub.append((p, z3.IntVal(rnd.randint(1, 5))))
+        g = z3.simplify(z3.substitute(conj, *sub))
+        if z3.is_true(g): return True
+        if z3.is_false(g): continue
+        r, m, dt, _ = _solve([g], timeout_s * 1000, seed)
         st.z3_s += dt
         if r == z3.sat: return True
     r, m, dt, _ = _solve(base, 3 * timeout_s * 1000, seed)
@@ -211,8 +266,8 @@ def snap_model(assumptions, bad, xs, timeout_s=10, seed=0, denom=8, lim=4000):
 # a * (1/b): the two differ only where b = 0, which z3 leaves unspecified anyway (zero denominators
 # are the subject of separate queries).
 class Canon:
-    def __init__(s, max_terms=20000):
-        s.pc, s.bc, s.max_terms = {}, {}, max_terms
+    def __init__(s, max_terms=20000, distribute=True):
+        s.pc, s.bc, s.max_terms, s.distribute = {}, {}, max_terms, distribute
         s.atoms = {}
 
     def atom(s, e):
@@ -275,6 +330,11 @@ class Canon:
             if list(den) == [()]:
                 c = den[()]
                 return {m: v / c for m, v in num.items()}
+            if not s.distribute:                    # quotient atom with the numeric content pulled out
+                if not num: return {}
+                ln, ld = num[min(num)], den[min(den)]
+                q = s.term({m: v / ln for m, v in num.items()}) / s.term({m: v / ld for m, v in den.items()})
+                return {m: v * (ln / ld) for m, v in s.atom(q).items()}
             if len(den) == 1:                       # monomial denominator c*m: pull the constant out
                 (m, c), = den.items()
                 inv = s.atom(z3.RealVal(1) / s.term({m: F(1)}))
@@ -344,7 +404,8 @@ class Canon:
                                    z3.Z3_OP_EQ: v == 0, z3.Z3_OP_DISTINCT: v != 0}[kind])
             # normalise sign/scale by the leading coefficient so that a<=b and -b<=-a coincide
             lead = d[min(d)]
-            dn = {m: v / abs(lead) for m, v in d.items()}
+            if kind in (z3.Z3_OP_EQ, z3.Z3_OP_DISTINCT): lead = abs(lead) * (1 if lead > 0 else -1) * (1 if True else 1)
+            dn = {m: v / (lead if kind in (z3.Z3_OP_EQ, z3.Z3_OP_DISTINCT) else abs(lead)) for m, v in d.items()}
             t = s.term(dn); z = z3.RealVal(0)
             return {z3.Z3_OP_LE: t <= z, z3.Z3_OP_LT: t < z, z3.Z3_OP_GE: t >= z, z3.Z3_OP_GT: t > z,
                     z3.Z3_OP_EQ: t == z, z3.Z3_OP_DISTINCT: t != z}[kind]
